@@ -185,6 +185,7 @@ theorem reverse_take_map_eq {l : List Sym} {ids : List Nat} (h : (l.take ids.len
 theorem reduce_safe (F : CertFacts T C) (env : Env) (s : St) (t : Nat) (st : List Nat) (p : Nat) (la : Option Nat)
     (hst : s.states = t :: st) (hc : Chain C s.states s.syms) (hred : C.redOK T t p = true) :
     ∃ prod, T.prods[p]? = some prod ∧ prod.rhs.length ≤ s.syms.length
+      ∧ (((s.syms.take prod.rhs.length).reverse).map (·.id) = prod.rhsIds ∧ prod.rhs.length = prod.rhsIds.length)
       ∧ reduce T env s p la = reduceCore T env s prod la
       ∧ (∀ s' o, reduce T env s p la = (s', some o) → DriverOk o)
       ∧ (∀ s', reduce T env s p la = (s', none) → Chain C s'.states s'.syms) := by
@@ -209,7 +210,7 @@ theorem reduce_safe (F : CertFacts T C) (env : Env) (s : St) (t : Nat) (st : Lis
       have heq : reduce T env s p la = reduceCore T env s prod la := by
         unfold reduce
         simp only [hp, hk, hids, if_false, Bool.false_eq_true]
-      refine ⟨prod, rfl, by omega, heq, ?_, ?_⟩
+      refine ⟨prod, rfl, by omega, ⟨by rw [hlen1]; exact reverse_take_map_eq h2, hlen1⟩, heq, ?_, ?_⟩
       all_goals rw [heq]; unfold reduceCore; dsimp only
       · intro s' o h
         split at h
